@@ -450,6 +450,11 @@ func runC19(c *Ctx) {
 			if pk, tn := recvTypeName(fn); pk != modPath || tn != "CodecConn" {
 				continue
 			}
+			entry := fn
+			if h := pureForwardOf(fn); h != nil {
+				fn = h // the loop moved into a helper ReadNext only forwards to
+			}
+			_ = entry
 			var decodes, reads []ssa.Instruction
 			eachInstr(fn, func(in ssa.Instruction) {
 				call, ok := in.(ssa.CallInstruction)
